@@ -44,6 +44,56 @@ PROPS = {
             "async scheduling (rule R1 reads the forwarding bodies sequentially)",
         ],
     },
+    "C03": {
+        "units": ["cer"], "kani_complete": [], "kani_bounded_quick": [], "kani_bounded_thorough": [],
+        "design_ref": "DESIGN.md section 5 / C03",
+        "not_covered": [
+            "that the ECDSA signature verifies under the registered public key: p256 is an assumed dependency "
+            "(spec_sign is an uninterpreted function of the stored COSE key and the message)",
+            "Client::authenticate (client data JSON, id / rawId strings): serde_json / ciborium code",
+            "the exact byte encoding of authenticator data (spec_ad_bytes is uninterpreted here; see C12)",
+        ],
+    },
+    "C04": {
+        "units": ["cer"], "kani_complete": [], "kani_bounded_quick": [], "kani_bounded_thorough": [],
+        "design_ref": "DESIGN.md section 5 / C04",
+        "not_covered": [
+            "Client mapping of userVerification to the uv option (one expression inside register / authenticate)",
+            "user-validation implementations themselves (the trait contract is 'what was reported')",
+        ],
+    },
+    "C05": {
+        "units": ["cer"], "kani_complete": [], "kani_bounded_quick": [], "kani_bounded_thorough": [],
+        "design_ref": "DESIGN.md section 5 / C05",
+        "not_covered": [
+            "the stores shipped with the library (MemoryStore, Option<Passkey>, lock wrappers): iterator/closure "
+            "chains outside Verus, intractable under Kani; by reading they ignore rp_id (DESIGN.md section 6, D7)",
+        ],
+    },
+    "C07": {
+        "units": ["cer"], "kani_complete": [], "kani_bounded_quick": [], "kani_bounded_thorough": [],
+        "design_ref": "DESIGN.md section 5 / C07",
+        "not_covered": [
+            "cancellation at suspension points: rule R1 reads async code sequentially; only the structural "
+            "conditions (one store_mut call, no await after it) are checked on the text",
+            "atomicity inside a store's own save / update; interior mutability behind &self (lock wrappers)",
+        ],
+    },
+    "C08": {
+        "units": ["cer"], "kani_complete": [], "kani_bounded_quick": [], "kani_bounded_thorough": [],
+        "design_ref": "DESIGN.md section 5 / C08",
+        "not_covered": [
+            "the big-endian encoding of the counter in authenticator data (C12)",
+            "histories: each call is proved for every stored value, cross-call monotonicity follows per call",
+        ],
+    },
+    "C11": {
+        "units": ["cer"], "kani_complete": [], "kani_bounded_quick": [], "kani_bounded_thorough": [],
+        "design_ref": "DESIGN.md section 5 / C11",
+        "not_covered": [
+            "the dataflow inside Client::register that passes the same rk to the authenticator and to credProps",
+        ],
+    },
     "C15": {
         "units": ["hid", "u2f"],
         "kani_complete": [],
